@@ -68,6 +68,10 @@ func witnesses() []witness {
 		{"s:%08.3lf", `"%08.3lf"`, 2, false, false},
 		{"s:%s%s", `"%s:%s"`, 2, false, false},
 		{"s:{}", `"{}:{}"`, 2, false, false},
+		// positional placeholders one and two past the arguments that can follow at arity 1..3
+		{"s:{1}", `"{1}"`, 2, false, true},
+		{"s:{2}", `"{2}:{1}"`, 2, false, true},
+		{"s:{3}", `"{3}{}"`, 2, false, true},
 		{"s:\\1", `"\1"`, 2, false, true},
 		{"s:(a)(b)?", `"(a)(b)?"`, 2, false, false},
 		{"s:a*", `"a*"`, 2, false, false},
